@@ -191,9 +191,14 @@ def run_case(spec, ctx):
         ctx.count('failure_instances')
         # (c) no numbers for an instance that has no optimum by construction
         for s, sol in opt.items():
+            r = raw(s)
+            if r[0] == 'optimal':
+                # the solver itself claims an optimum when called directly: not the interface
+                ctx.count('solver_level_optimum_on_%s:%s' % (outcome, s))
+                continue
             detail.append({'what': 'optimum reported for an instance that is %s by construction'
                            % outcome, 'solver': s, 'objval': float(sol.objval),
-                           'x': np.asarray(sol.x)[:8].tolist()})
+                           'x': np.asarray(sol.x)[:8].tolist(), 'direct_call': r[0]})
         # model-level accessors must raise
         try:
             sname = failed[0] if failed else None
